@@ -7,11 +7,12 @@ from .. import nodegen
 
 ID = "C02"
 SUITES = ["core", "node"]
-LEAN_MODULES = ["VpnCloud.Proofs.C02", "VpnCloud.Proofs.C02Node", "VpnCloud.Proofs.C02More", "VpnCloud.Proofs.GuardsUsed"]
+LEAN_MODULES = ["VpnCloud.Proofs.C02", "VpnCloud.Proofs.C02Node", "VpnCloud.Proofs.C02More", "VpnCloud.Proofs.GuardsUsed", "VpnCloud.Proofs.C10Net"]
 THEOREMS = ["VpnCloud.Proofs.C02." + n for n in ("roundtrip", "accepted_is_genuine", "reject_no_state", "garbage_rejected", "reflection_rejected", "cross_connection_rejected")] + [
             "VpnCloud.Proofs.C02Node.wire_is_sealed", "VpnCloud.Proofs.C02Node.pending_session_carries_nothing", "VpnCloud.Proofs.C02Node.pending_session_cannot_send"]
 THEOREMS = THEOREMS + ["VpnCloud.Proofs.C02More." + n for n in ('node_wire_is_sealed', 'wire_sealed_if_session_encrypted', 'iface_wire_is_sealed', 'cleartext_not_on_wire', 'cleartext_not_on_wire_all', 'plain_only_if_both', 'no_plain_all_sealed', 'node_wire_is_sealed_reach', 'no_plain_all_sealed_cur', 'session_plain_needs_peer_flag', 'responder_plain_needs_ping_flag', 'plain_peer_only_by_plain_handshake', 'wire_sealed_if_session_encrypted_net', 'tampered_dropped_node', 'altered_ciphertext_dropped', 'truncated_dropped', 'bad_key_id_dropped', 'altered_counter_dropped', 'cross_connection_dropped', 'reflected_dropped')]
 THEOREMS = THEOREMS + ["VpnCloud.Proofs.GuardsUsed." + n for n in ('datagramTooShort_boundary', 'keyIdInvalid_boundary')]
+THEOREMS = THEOREMS + ["VpnCloud.Proofs.C10Net." + n for n in ('frames_delivered_exactly_once', 'frames_delivered_same_mode', 'misdelivered_never_reaches_iface')]
 BATCH = 100
 SEARCH_BUDGET_S = 300
 EXPECTED_CLASSES = ["seal:d", "deliver:ok", "deliver:err", "tick:ok"]
